@@ -10,7 +10,7 @@ import LoraVerif.Gen.UplinkStatic
 `FOPTS_MAX_LEN` limit of the answer queue, the set of answers that are repeated until the next
 downlink and the 6-bit margin of DevStatusAns.  Each is proved equal, for all arguments, to what
 `tools/translate` regenerates from the current source: the `#[cmd(cid, len)]` tables
-(`Gen/CmdTables.lean`), the guard of `Uplink::add_mac_command`, the `matches!` filter of
+(`Gen/CmdTables.lean`), the whole of `Uplink::add_mac_command` (`Gen/UplinkFn.lean`, builder L), the `matches!` filter of
 `Uplink::clear_mac_commands` and `DevStatusAnsCreator::set_margin` (`Gen/UplinkStatic.lean`).
 -/
 set_option linter.unusedSimpArgs false
@@ -55,35 +55,13 @@ theorem tieA_isSticky (cid : Nat) : isSticky cid = retainedCids.contains cid := 
 
 example : isSticky 5 = true ∧ isSticky 3 = false := by decide
 
-/-- the guard of `add_mac_command` (`pending.len() + payload_len < FOPTS_MAX_LEN`, `usize`
-arithmetic; the hypothesis excludes only a `usize` overflow no list length can cause) -/
-theorem tieA_queueLimit (p q : Nat) (h : p + q ≤ 18446744073709551615) :
-    Gen.UplinkStatic.Uplink.add_mac_command.fits p q = some (decide (p + q < 15)) := by
-  have hck : Rt.ck .usize ((p : Int) + (q : Int)) = some ((p : Int) + (q : Int)) :=
-    Rt.ck_eq_some (by constructor <;> simp [Rt.ITy.lo, Rt.ITy.hi, Rt.ITy.signed, Rt.ITy.bits] <;> omega)
-  simp only [Gen.UplinkStatic.Uplink.add_mac_command.fits, hck, Gen.UplinkStatic.FOPTS_MAX_LEN]
-  show some (decide ((p : Int) + (q : Int) < 15)) = _
-  congr 1
-  rw [Bool.eq_iff_iff]; simp only [decide_eq_true_eq]; omega
-
-/-- `Uplink::add_mac_command` as modelled: appended iff the generated guard holds -/
-theorem tieA_addMacCommand (pending : List Nat) (cid : Nat) (payload : List Nat)
-    (h : pending.length + payload.length ≤ 18446744073709551615) :
-    addMacCommand pending cid payload =
-      if Gen.UplinkStatic.Uplink.add_mac_command.fits pending.length payload.length = some true
-      then pending ++ cid :: payload else pending := by
-  rw [tieA_queueLimit _ _ h]
-  unfold addMacCommand
-  by_cases hc : pending.length + payload.length < 15 <;> simp [hc]
-
-/-- `push_answer` as modelled (`MacCtx.push`): same guard -/
-theorem tieA_push (c : MacCtx) (cid : Nat) (payload : List Nat) (hf : c.full = false)
-    (h : c.pending.length + payload.length ≤ 18446744073709551615) :
-    c.push cid payload =
-      if Gen.UplinkStatic.Uplink.add_mac_command.fits c.pending.length payload.length = some true
-      then { c with pending := c.pending ++ cid :: payload } else { c with full := true } := by
-  rw [tieA_queueLimit _ _ h]
-  unfold MacCtx.push
+/-- `push_answer` as modelled (`MacCtx.push`): while no answer of this downlink has been dropped it
+queues exactly as `addMacCommand` (= `Uplink::add_mac_command`, `tieA_add_mac_command` below) and
+raises `full` exactly when that refuses -/
+theorem tieA_push (c : MacCtx) (cid : Nat) (payload : List Nat) (hf : c.full = false) :
+    (c.push cid payload).pending = addMacCommand c.pending cid payload ∧
+    (c.push cid payload).full = !decide (c.pending.length + payload.length < 15) := by
+  unfold MacCtx.push addMacCommand
   by_cases hc : c.pending.length + payload.length < 15 <;> simp [hc, hf]
 
 example : addMacCommand (List.replicate 13 0) 6 [255, 0] = List.replicate 13 0 := by decide
@@ -110,7 +88,7 @@ example : devStatusMargin (-5) = 59 ∧ devStatusMargin 40 = 0 := by decide
 #print axioms tieA_uplinkCmdLen
 #print axioms tieA_downlinkCmdLen
 #print axioms tieA_isSticky
-#print axioms tieA_queueLimit
+#print axioms tieA_push
 #print axioms tieA_devStatusMargin
 
 /-! ## builder L — whole methods of `Uplink` (state-passing translation, `Gen/UplinkFn.lean`)
@@ -175,8 +153,7 @@ pipeline (parse → `matches!` filter → re-serialise; uninterpreted here, its 
 theorem tieA_clear_mac_commands (u : Gen.UplinkFn.Uplink) :
     Gen.UplinkFn.Uplink.clear_mac_commands u false = { u with pending := [] } ∧
     Gen.UplinkFn.Uplink.clear_mac_commands u true = { u with pending := Gen.UplinkFn.retained_pipeline u.pending [] } := by
-  constructor <;> unfold Gen.UplinkFn.Uplink.clear_mac_commands <;> gen_unfold_helpers_UplinkFn <;>
-    simp only [if_true, if_false, Bool.false_eq_true]
+  constructor <;> unfold Gen.UplinkFn.Uplink.clear_mac_commands <;> gen_unfold_helpers_UplinkFn <;> tie_eval
 
 #print axioms tieA_add_mac_command
 #print axioms tieA_downlink_confirmation
